@@ -408,7 +408,15 @@ func runMachine(t *rapid.T, seed []byte) (w *world) {
 			}
 			// single fragments, and the short chains in which a pairing without the setup code would have to come about
 			kinds := rapid.SampledFrom([]string{"start", "verify-wrong-proof", "verify-A-zero", "exchange-zero-key", "exchange-guessed-key",
-				"start+verify-A-zero+exchange-zero-key", "start+verify-wrong-proof+exchange-zero-key", "start+verify-A-zero+exchange-guessed-key", "start+verify-no-proof+exchange-zero-key"}).Draw(t, "frag")
+				"start+verify-A-zero+exchange-zero-key", "start+verify-wrong-proof+exchange-zero-key", "start+verify-A-zero+exchange-guessed-key", "start+verify-no-proof+exchange-zero-key",
+				"burst-of-failed-attempts"}).Draw(t, "frag")
+			if kinds == "burst-of-failed-attempts" {
+				// attempt counters and lock-outs only act after the n-th failure on a connection
+				n := rapid.IntRange(8, 16).Draw(t, "failed-attempts")
+				fk := rapid.SampledFrom([]string{"verify-A-zero", "verify-A-zero", "verify-wrong-proof"}).Draw(t, "failed-kind")
+				kinds = strings.Repeat("start+"+fk+"+", n) + "start+" + fk + "+exchange-zero-key"
+				w.flags["pair-setup-burst"] = true
+			}
 			before := w.snap()
 			var derr error
 			for _, kind := range strings.Split(kinds, "+") {
